@@ -292,16 +292,22 @@ func (c carrierCase) handler() http.Handler {
 
 // checkCarrier: one case with call-option list o.
 func checkCarrier(c carrierCase, o optSet) (clause, obs string) {
+	takePanics()
 	defer func() {
+		// making the handler through the case's entry point
 		if p := recover(); p != nil {
-			clause, obs = "panic", fmt.Sprint(p)
+			notePanic("server", p)
+			clause, obs, _ = serverPanicVerdict("making the handler:")
 		}
 	}()
 	wantCode, wantMsg, wantDetails := c.want()
 	h := c.handler()
 	if c.Stream {
-		so := streamCall(common.HandlerRT(h), o)
+		so := streamCall(handlerRT("server", h), o)
 		obs = so.obs(o)
+		if cl, d, bad := serverPanicVerdict(obs + ";"); bad {
+			return cl, d
+		}
 		switch {
 		case so.panicked != nil:
 			return "stream-panic", fmt.Sprintf("%s panic=%v", obs, so.panicked)
@@ -323,6 +329,9 @@ func checkCarrier(c carrierCase, o optSet) (clause, obs string) {
 		return "", obs
 	}
 	rp := c.serve(h)
+	if cl, d, bad := serverPanicVerdict(""); bad {
+		return cl, d
+	}
 	if cl, d := replyMismatch(c.Renderer, c.Cancelled, wantCode, rp); cl != "" {
 		return cl, d
 	}
@@ -338,9 +347,8 @@ func (c carrierCase) serve(h http.Handler) reply {
 	}
 	req := httptest.NewRequest("POST", "/t.S/M", bytes.NewReader(reqBody)).WithContext(ctx)
 	req.Header.Set("Content-Type", httpgrpc.UnaryRpcContentType_V1)
-	rec := httptest.NewRecorder()
-	h.ServeHTTP(rec, req)
-	return reply{rec.Code, rec.Header(), rec.Body.Bytes()}
+	rp, _ := serveRecorded("server", h, req)
+	return rp
 }
 
 // carrierCodes: the codes a carrier can carry.
@@ -371,7 +379,15 @@ func allCarriers() []string {
 
 // group: one per (carrier, wrapped by the handler alone / also by an annotating
 // interceptor); the clause and the rest of the simplest failing member go into the tail.
-func (c carrierCase) group() string {
+func (c carrierCase) group(clause string) string {
+	if isLibPanic(clause) {
+		// a panic of the handler side is grouped with the plain cases of what the handler
+		// was asked to render; carrier, interceptor and entry point go into the tail
+		if c.Stream {
+			return fmt.Sprintf("C14|stream|code=%d|%s", c.Code, clause)
+		}
+		return fmt.Sprintf("C14|server|code=%d|cancelled=%v|renderer=%s|%s", c.Code, c.Cancelled, c.Renderer, clause)
+	}
 	by := "handler"
 	if c.Interceptor == "annotate" {
 		by = "handler+annotating-interceptor"
@@ -380,6 +396,13 @@ func (c carrierCase) group() string {
 }
 
 func (c carrierCase) extras(clause string, o optSet) string {
+	if isLibPanic(clause) {
+		s := fmt.Sprintf("|carrier=%s|interceptor=%s|entry=%s", c.Carrier, c.Interceptor, c.Entry)
+		if c.Stream {
+			s += fmt.Sprintf("|nmsgs=%d", c.NMsgs)
+		}
+		return s + extras("", "", c.Details, o)
+	}
 	s := fmt.Sprintf("|%s|entry=%s", clause, c.Entry)
 	if c.Stream {
 		s += fmt.Sprintf("|stream|nmsgs=%d", c.NMsgs)
